@@ -242,7 +242,9 @@ def run(ctx):
                 ctx.check(to_ret, "R10.5", key + "#disconnect-terminates", loc(cb, disc_t), "the disconnected outcome does not lead to Return")
                 if to_ret:
                     fl2 = [f.bb for f in flushes if f.bb in reach]
-                    ctx.check(bool(fl2) and cb.must_pass(fl2, start=disc_t), "R10.5", key + "#final-flush-on-disconnect", loc(cb, disc_t),
+                    # ... or already flushed on the error arm before the two error kinds are told apart (no receive in between)
+                    pre = [f.bb for f in flushes if f.bb in cb.reachable(err_t, avoid=[r.bb]) and dominates(cb, f.bb, disc_t, dom) and f.bb != disc_t]
+                    ctx.check((bool(fl2) and cb.must_pass(fl2, start=disc_t)) or bool(pre), "R10.5", key + "#final-flush-on-disconnect", loc(cb, disc_t),
                               "the worker exits on disconnect without emitting what it still holds (no flush on the path to Return)")
         elif err_t is None:
             ctx.bad("R10.5", key + "#disconnect-terminates", loc(cb, r.bb), "the result of the receive is not matched")
